@@ -289,9 +289,13 @@ def run_required(ctx, prog, S, M, T):
             continue
         loops = [n for n in ast.walk(g.node) if isinstance(n, ast.For) and isinstance(n.target, ast.Name) and isinstance(n.iter, ast.Attribute)
                  and n.iter.attr.endswith("_lst")]
-        if not loops:
+        # the other way the repository empties an element of one kind of child: `E.remove_all("a:p", ...)`
+        wipes = [n for n in ast.walk(g.node) if isinstance(n, ast.Call) and isinstance(n.func, ast.Attribute) and n.func.attr == "remove_all"
+                 and n.args and all(isinstance(a, ast.Constant) and isinstance(a.value, str) for a in n.args)]
+        if not loops and not wipes:
             continue
         fc = FCtx(g)
+        sites = []   # (node, emptied element expression, [child tags])
         for lp in loops:
             src = lp.iter.value              # the element whose children are iterated
             v = lp.target.id
@@ -304,32 +308,45 @@ def run_required(ctx, prog, S, M, T):
             if all(ast.unparse(c.func.value) == srcs and c.func.attr != "remove" for c in moves):
                 continue
             prop = lp.iter.attr[:-4]
+            ctags = set()
+            for a in T.expr(src, fc):
+                if a[0] == "inst":
+                    decl = next((d for d in M.child_decls(a[1]) if d.prop == prop), None)
+                    if decl is not None:
+                        ctags.add(decl.tags[0])
+            sites.append((lp, src, sorted(ctags), "%s_lst" % prop))
+        for w in wipes:
+            sites.append((w, w.func.value, [a.value for a in w.args], "remove_all"))
+        for node, src, ctags, how in sites:
+            srcs = ast.unparse(src)
             req = []
             for a in T.expr(src, fc):
                 if a[0] != "inst":
                     continue
-                decl = next((d for d in M.child_decls(a[1]) if d.prop == prop), None)
-                if decl is None:
-                    continue
-                cq = prog.qn(decl.tags[0])
-                tags = M.tags_for_class(a[1])
-                for t in tags:
-                    for tq in sorted(x for x in S.elem_decls.get(prog.qn(t), ()) if x in S.ctypes):
-                        if cq in S.alphabet(tq) and required_child(S, tq, cq):
-                            req.append((decl.tags[0], S.tname(tq)))
+                for ctag in ctags:
+                    cq = prog.qn(ctag)
+                    for t in M.tags_for_class(a[1]):
+                        for tq in sorted(x for x in S.elem_decls.get(prog.qn(t), ()) if x in S.ctypes):
+                            if cq in S.alphabet(tq) and required_child(S, tq, cq):
+                                req.append((ctag, S.tname(tq)))
             if not req:
                 continue
             n_sites += 1
-            key = "%s:%s.%s_lst" % (g.qualname, srcs, prop)
+            prop = req[0][0].split(":")[-1]
+            key = "%s:%s.%s" % (g.qualname, srcs, how if how != "remove_all" else "%s_lst" % prop)
             # the clearing primitive itself (its callers restore): a method of the emptied class whose whole job is the loop
             if srcs == "self" and len([s_ for s_ in g.node.body if not (isinstance(s_, ast.Expr) and isinstance(s_.value, ast.Constant))]) == 1:
                 ctx.ok("R3.7", key, nontrivial=False)
                 continue
             gd = desugar(g.node)
-            lpd = [n for n in ast.walk(gd) if isinstance(n, ast.For) and ast.unparse(n.iter) == ast.unparse(lp.iter) and ast.unparse(n.target) == v]
+            if isinstance(node, ast.For):
+                lpd = [n for n in ast.walk(gd) if isinstance(n, ast.For) and ast.unparse(n.iter) == ast.unparse(node.iter) and ast.unparse(n.target) == ast.unparse(node.target)]
+            else:
+                lpd = [n for n in ast.walk(gd) if isinstance(n, ast.Call) and ast.unparse(n) == ast.unparse(node)]
             ok_all, found = True, False
             for pth in P_.enum_paths(gd.body):
-                idx = next((i for i, e in enumerate(pth.events) if e[0] == "loop" and any(e[1] is x for x in lpd)), None)
+                idx = next((i for i, e in enumerate(pth.events) if e[0] in ("loop", "stmt") and any(
+                    (e[1] is x) if isinstance(node, ast.For) else any(y is x for y in ast.walk(e[1])) for x in lpd)), None)
                 if idx is None or pth.end == "raise":
                     continue
                 found = True
@@ -343,10 +360,10 @@ def run_required(ctx, prog, S, M, T):
                 if not restored:
                     ok_all = False
             if not found:
-                ctx.error(key, "the emptying loop is not on any path of the function")
+                ctx.error(key, "the emptying statement is not on any path of the function")
             elif ok_all:
                 ctx.ok("R3.7", key, sample={"function": g.fq, "emptied": "%s of <%s>" % (srcs, req[0][0]), "required_by": req[0][1], "restored": "after the loop"})
             else:
                 ctx.violation("R3.7", key, "every <%s> is moved out of `%s` and nothing puts one back afterwards: %s requires at least one, "
-                              "so the element is left schema-invalid" % (req[0][0], srcs, req[0][1]), file=g.file, line=lp.lineno)
+                              "so the element is left schema-invalid" % (req[0][0], srcs, req[0][1]), file=g.file, line=node.lineno)
     ctx.count("emptied_required_sites", n_sites)
